@@ -894,6 +894,10 @@ func (a *FuncAnalysis) classify(v ssa.Value, want string, facts FactSet, depth i
 				if st := a.D.reachingStore(x, x.X); st != nil {
 					return a.classify(st.Val, want, facts, depth+1)
 				}
+				// sentinel error variables (var ErrX = errors.New(..)) are never nil
+				if g, ok := x.X.(*ssa.Global); ok && isErrorType(x.Type()) && sentinelError(g) {
+					return no, nil
+				}
 			}
 		case *ssa.TypeAssert:
 			if !x.CommaOk {
@@ -1141,4 +1145,47 @@ func baseIsFresh(addr ssa.Value) bool {
 			return false
 		}
 	}
+}
+
+// sentinelError: a package-level error variable initialised in the package
+// initialiser with a freshly made error and never assigned elsewhere in its
+// package.
+func sentinelError(g *ssa.Global) bool {
+	if g.Pkg == nil {
+		return false
+	}
+	inits, other := 0, 0
+	for _, m := range g.Pkg.Members {
+		f, ok := m.(*ssa.Function)
+		if !ok {
+			continue
+		}
+		fs := []*ssa.Function{f}
+		fs = append(fs, f.AnonFuncs...)
+		for _, fn := range fs {
+			for _, b := range fn.Blocks {
+				for _, in := range b.Instrs {
+					st, ok := in.(*ssa.Store)
+					if !ok || st.Addr != ssa.Value(g) {
+						continue
+					}
+					made := false
+					switch v := st.Val.(type) {
+					case *ssa.Call:
+						if sc := v.Call.StaticCallee(); sc != nil && nonNilErrorMakers[sc.String()] {
+							made = true
+						}
+					case *ssa.MakeInterface:
+						made = true
+					}
+					if f.Name() == "init" && made {
+						inits++
+					} else {
+						other++
+					}
+				}
+			}
+		}
+	}
+	return inits == 1 && other == 0
 }
